@@ -92,6 +92,18 @@ fn seed2(vals: &[f64], i: usize, j: usize) -> Vec<Jet<Jet<Fe>>> {
         .collect()
 }
 
+/// is the reference derivative defined at one of the fixed float points?  (A refused
+/// differentiation is only judged if the function has a sampled point in the interior of its
+/// domain; `(2-2)^x^(2-2)` = (0^x)^0 has none.)
+fn reference_defined_somewhere(tree: &Tree, t: &Table, idxs: &[usize]) -> bool {
+    let vars = tree.vars();
+    POINTS.iter().any(|(px, py)| {
+        let pt: Vec<f64> = if vars.len() > 2 { vec![*px; vars.len()] } else { [*px, *py][..vars.len().min(2)].to_vec() };
+        let refd: Fe = if idxs.len() == 1 { eval_num::<Jet<Fe>>(tree, t, &vars, &seed1(&pt, idxs[0])).d } else { eval_num::<Jet<Jet<Fe>>>(tree, t, &vars, &seed2(&pt, idxs[0], idxs[1])).d.d };
+        refd.defined()
+    })
+}
+
 pub struct Verdict {
     pub conclusive: usize,
     pub bad: Option<String>,
@@ -232,6 +244,7 @@ fn judge_tree(tree: &Tree, t: &Table, text: &str, provs: &[Prov], second_order: 
                 ),
                 (NoRule::Hard, Ok(Err(_))) => acc.count("derivatives_correctly_refused(no rule)", 1),
                 (NoRule::Soft, Ok(Err(_))) => acc.count("derivatives_refused_because_of_a_no-rule_operator_over_another_variable(allowed)", 1),
+                (NoRule::None, Ok(Err(_))) if !reference_defined_somewhere(tree, t, idxs) => acc.count("derivatives_refused_for_a_function_without_a_sampled_interior_point_of_its_domain(not judged)", 1),
                 (NoRule::None, Ok(Err(m))) => report(format!("differentiation-failed:{}", canon_ops(tree, t)), format!("{prov:?}: partial{idxs:?} of the differentiable expression {text:?} failed: {m}")),
                 (_, Ok(Ok(v))) => {
                     if let Some(b) = v.bad {
@@ -248,6 +261,7 @@ fn judge_tree(tree: &Tree, t: &Table, text: &str, provs: &[Prov], second_order: 
                 let res = guard(|| compare_exact(tree, t, text, prov, idxs, acc));
                 match res {
                     Err(p) => acc.violate(Violation { signature: format!("panic:{}", panic_site(&p)), what: format!("{prov:?} d{idxs:?} of {text:?} over Q panicked: {p}"), case: json!({"engine": "c05", "text": text, "prov": format!("{prov:?}"), "idxs": idxs}) }),
+                    Ok(Err(_)) if !reference_defined_somewhere(tree, t, idxs) => acc.count("derivatives_refused_for_a_function_without_a_sampled_interior_point_of_its_domain(not judged)", 1),
                     Ok(Err(m)) => acc.violate(Violation { signature: format!("differentiation-failed-Q:{}", canon_ops(tree, t)), what: format!("{prov:?}: partial{idxs:?} of {text:?} over exact rationals failed: {m}"), case: json!({"engine": "c05", "text": text, "prov": format!("{prov:?}"), "idxs": idxs}) }),
                     Ok(Ok(v)) => {
                         if let Some(b) = v.bad {
